@@ -4,3 +4,7 @@ package proxy
 
 // vfYield marks a schedule point for the verification harness (build tag `verif`). Without the tag it does nothing.
 func vfYield(string) {}
+
+// vfBroadcast lets the verification harness observe an ownership announcement (recipients chosen, bytes) before it is
+// handed to memberlist. Without the tag it does nothing.
+func vfBroadcast(string, []string, []byte) {}
